@@ -59,7 +59,7 @@ def run(ctx):
                'fits are compared with the numeric reference (C01/C02) per variant, which is what "agree" means up to the float32 memmap bound')
     ctx.require_events('file:checked', 'twin:compared', 'fit:checked', 'history:listing-made-before-adding-a-filter',
                        'file:checked:filter-added-after-listing', 'file:checked:table-rewritten-then-overwrite')     # (the sort_to_match probe is an extra observation point, not a required route)
-    ctx.require_regimes('gz', 'subdir', 'mixed-order', 'cube:desc', 'cube:asc', 'f32', 'n_ap>1', 'n_ap=1', 'memmap:on', 'memmap:off', 'filters>1', 'filters-used-before', 'names:long', 'cube-unit:Jy', 'apertures:not-in-AU', 'fitters:several-alive', 'cube:table-order-differs-from-cube')
+    ctx.require_regimes('sed:n_wav-equals-n_ap', 'gz', 'subdir', 'mixed-order', 'cube:desc', 'cube:asc', 'f32', 'n_ap>1', 'n_ap=1', 'memmap:on', 'memmap:off', 'filters>1', 'filters-used-before', 'names:long', 'cube-unit:Jy', 'apertures:not-in-AU', 'fitters:several-alive', 'cube:table-order-differs-from-cube')
     n_pkg = 7 if ctx.quick else 120
     for ip in range(n_pkg):
         n_m = int(rng.integers(1, 9))
@@ -67,6 +67,9 @@ def run(ctx):
         slot = (ip + 3 * ctx.shard) % 7
         n_ap = 1 if slot == 0 else (int(rng.integers(2, 6)) if slot in (1, 2) else int(rng.integers(1, 6)))
         n_w = int(rng.choice([6, 15, 40]))
+        if slot == 1 or (slot == 5 and n_ap >= 2):
+            n_w = n_ap          # as many spectral points as apertures: the two axes of an SED's flux table have the same length
+            ctx.regime('sed:n_wav-equals-n_ap')
         f32 = slot == 3 or (slot > 4 and bool(rng.random() < 0.3))
         r_ = 0.9 if slot == 4 else rng.random()
         if r_ < 0.5:
